@@ -76,15 +76,21 @@ impl Executor {
     pub open spec fn runs(&self) -> nat { self.run_at().len() }
     // number of models registered with ModelId (ids are issued by add_model, unit reg)
     pub uninterp spec fn n_models(&self) -> nat;
+    // the executor can still be used: after a failed run it may not be (the single-threaded executor leaves its state
+    // with the timed-out worker thread: st_executor.rs, `self.inner.take()`), and spawning on it then panics
+    pub uninterp spec fn usable(&self) -> bool;
     #[verifier::external_body]
     pub fn spawn_and_forget(&mut self, f: SeqFuture)
-        ensures final(self).spawned() == old(self).spawned().push(f.aids()), final(self).run_at() == old(self).run_at(),
+        requires old(self).usable(),                         //@ C11 #nothing-is-spawned-on-a-dead-executor //@if !mon
+        ensures final(self).usable(), final(self).spawned() == old(self).spawned().push(f.aids()), final(self).run_at() == old(self).run_at(),
             final(self).n_models() == old(self).n_models(),
     { unimplemented!() }
     // assumption A-exec: runs every spawned task to quiescence at the current time; may return any error
     #[verifier::external_body]
     pub fn run(&mut self, timeout: Duration, Ghost(now): Ghost<u64>, Ghost(synced): Ghost<int>) -> (r: Result<(), ExecutorError>)
-        ensures final(self).spawned() == old(self).spawned(), final(self).run_at() == old(self).run_at().push((now, synced)),
+        requires old(self).usable(),                         //@ C11 #nothing-runs-on-a-dead-executor //@if !mon
+        ensures r is Ok ==> final(self).usable(),
+            final(self).spawned() == old(self).spawned(), final(self).run_at() == old(self).run_at().push((now, synced)),
             final(self).n_models() == old(self).n_models(),
             r matches Err(ExecutorError::Panic(id, _p)) ==> id.0 == usize::MAX || id.0 < final(self).n_models(),
     { unimplemented!() }
@@ -92,7 +98,8 @@ impl Executor {
 impl Action {
     #[verifier::external_body]
     pub fn spawn_and_forget(self, e: &mut Executor)
-        ensures final(e).spawned() == old(e).spawned().push(seq![self.aid()]), final(e).run_at() == old(e).run_at(),
+        requires old(e).usable(),                            //@ C11 #nothing-is-spawned-on-a-dead-executor //@if !mon
+        ensures final(e).usable(), final(e).spawned() == old(e).spawned().push(seq![self.aid()]), final(e).run_at() == old(e).run_at(),
             final(e).n_models() == old(e).n_models(),
     { unimplemented!() }
 }
